@@ -225,6 +225,17 @@ CLAIMED.update({
     },
 })
 
+CLAIMED.update({
+    "C42": {
+        "technique": "static analysis: exhaustive evaluation of the recursion combinators over {Continue, Jump, Stop} x flag from MIR; composition order on resolved callees; child-variant coverage of visiting vs rewriting",
+        "level": ("Static, exhaustive over the three recursion values (x transformed flag): the six combinators invoke or skip the "
+                  "continuation and return the recursion value required by the documented contract; the transformed flag is OR-ed and "
+                  "never lost; the default apply / transform_down / transform_up bodies compose callback and combinators in the "
+                  "documented order; for Expr and LogicalPlan the set of variants whose children are visited equals the set whose "
+                  "children are rewritten. User callbacks and every other TreeNode implementation's child lists are not decided."),
+    },
+})
+
 NA = {
     'C01': 'whole-pipeline value semantics over all queries x all table contents: functional verification, no clause visible in code shape beyond C03/C05/C47',
     'C08': 'ordering/permutation of runtime values (loser tree, cursors, heaps are value algorithms); no structural clause',
